@@ -14,14 +14,16 @@ TECHNIQUE = ("exhaustive enumeration of small token rings plus property-based te
              "transcriptions of Cassandra's calculateNaturalEndpoints (4.x DatacenterEndpoints and 2.x skipped-endpoints formulations)")
 RULE = ("A case is a ring description (hosts with dc/rack/tokens, partitioner), a list of keyspace replication settings and probe keys; "
         "the real Metadata/TokenMap/KeyspaceMetadata/Host objects are built from it the way the control connection does. "
-        "Part small-rings enumerates every ring with <=4 hosts (thorough: <=5) x 1-2 tokens per host (thorough: 1-3, <=9 tokens) in every ring order (up to host "
-        "relabelling) x every dc assignment over <=2 DCs x every rack assignment over <=2 racks per DC (thorough: <=3); each ring carries "
+        "Part small-rings enumerates, in every ring order (up to host relabelling) x every dc assignment over <=2 DCs x every rack assignment "
+        "per DC, the rings with (quick) <=4 hosts x 1-2 tokens per host, <=6 tokens in all, <=2 racks per DC; (thorough) <=3 hosts x 1-4 tokens "
+        "(<=9 in all) x <=3 racks, 4 hosts x 1-2 tokens x <=3 racks, 4 hosts x 1-3 tokens (<=7 in all) x <=2 racks, 5 hosts x 1-2 tokens "
+        "(<=7 in all) x <=2 racks with murmur3 tokens, plus <=3 (thorough <=4) hosts x 1-2 tokens for the Random and ByteOrdered partitioners; each ring carries "
         "SimpleStrategy RF 1..hosts+1 and NetworkTopologyStrategy with every per-DC RF in 0..4 (not all zero), an absent DC and one transient "
         "setting; ring tokens are the tokens of fixed probe keys so that keys fall before the first, between, exactly on and after the last "
         "ring token.  Part random-rings draws rings of <=6 hosts x <=3 racks x <=2 DCs (thorough <=3 DCs) x 1-4 tokens per host with boundary "
         "tokens (Long.MIN_VALUE, Long.MAX_VALUE, 0, 2**127, empty/ff.. byte tokens) and tokens derived from the drawn keys (+-1).  For every keyspace the reference "
         "replica set is computed for every ring position; the driver is asked through TokenMap.get_replicas for every ring token and its "
-        "+-1 neighbours and through Metadata.get_replicas for every probe key.  Non-trivial: a NetworkTopologyStrategy keyspace where rack "
+        "+-1 neighbours and through Metadata.get_replicas for the probe keys (all of them on the first two keyspaces, every third on the others).  Non-trivial: a NetworkTopologyStrategy keyspace where rack "
         "awareness changes the result (the replica set differs from the first-RF-hosts-of-the-DC walk at some position) or RF exceeds "
         "the number of racks of a DC with more hosts than racks, or a SimpleStrategy walk that has to skip a repeated host.")
 ASSUMPTIONS = [
@@ -45,28 +47,55 @@ def _rf_features(opts):
 
 def _dc_features(ring, dc, opts):
     """structural features of one datacenter of the ring for finding keys"""
-    hosts = [i for i, (d, _r) in ring.topology.items() if d == dc and any(ep == i for _t, ep in ring.ref_ring)]
-    racks = set(ring.topology[i][1] for i in hosts)
+    if "/" in str(opts.get(dc, "")):
+        return ["transient-rf"]
+    hosts = set(ep for _t, ep in ring.ref_ring if ring.topology[ep][0] == dc)
     ntok = sum(1 for _t, ep in ring.ref_ring if ep in hosts)
-    vn = "dc-vnodes" if ntok > len(hosts) else "dc-single-token"
-    rf_all = ref.parse_rf(opts.get(dc, "0"))[0]
-    eff = min(rf_all, len(hosts))
-    gap = "rf-racks>=2" if eff - len(racks) >= 2 else "rf-racks<2"
-    tr = "transient-rf" if "/" in str(opts.get(dc, "")) else "plain-rf"
-    return [tr, vn, gap]
+    return ["plain-rf", "dc-vnodes" if ntok > len(hosts) else "dc-single-token"]
 
 
-def _dc_walk(ring, dc, rf, start):
+def _dc_walk(ref_ring, topology, dc, rf, start):
     """first `rf` distinct hosts of `dc` from ring index `start` -- rack-unaware walk (for the non-trivial rule)"""
     out = []
-    n = len(ring.ref_ring)
+    n = len(ref_ring)
+    if rf <= 0:
+        return out
     for k in range(n):
-        ep = ring.ref_ring[(start + k) % n][1]
-        if ring.topology[ep][0] == dc and ep not in out:
+        ep = ref_ring[(start + k) % n][1]
+        if topology[ep][0] == dc and ep not in out:
             out.append(ep)
             if len(out) >= rf:
                 break
     return out
+
+
+def _nontrivial(ring, short, opts, want):
+    n = len(ring.ref_ring)
+    topo = ring.topology
+    if short == "SimpleStrategy":
+        rf = ref.parse_rf(opts["replication_factor"])[0]
+        for i in range(n):
+            first = []
+            for k in range(n):
+                if len(first) >= rf:
+                    break
+                ep = ring.ref_ring[(i + k) % n][1]
+                if ep in first:
+                    return "simple:repeated-host-skipped"      # a repeated host had to be skipped before RF was reached
+                first.append(ep)
+        return None
+    for dc in set(d for d, _r in topo.values()):
+        if dc not in opts:
+            continue
+        rf = ref.parse_rf(opts[dc])[0]
+        hosts_dc = set(ep for _t, ep in ring.ref_ring if topo[ep][0] == dc)
+        racks_dc = set(topo[ep][1] for ep in hosts_dc)
+        for i in range(n):
+            if set(_dc_walk(ring.ref_ring, topo, dc, rf, i)) != set(ep for ep in want[i] if topo[ep][0] == dc):
+                return "nts:rack-awareness-changes-the-set"
+        if rf > len(racks_dc) and len(hosts_dc) > len(racks_dc):
+            return "nts:rf>racks"
+    return None
 
 
 def interpret(case, ctx):
@@ -85,25 +114,25 @@ def interpret(case, ctx):
             md.token_map and md.token_map.ring, tokens))
         return
 
-    # probes: (how, argument, ring index the reference selects)
-    probes = []
+    # probes: (argument, ring index the reference selects)
+    tprobes, kprobes = [], []
     for i, t in enumerate(tokens):
-        probes.append(("token", t, i))
+        tprobes.append((t, i))
         if part != "bytes":
             lo = MIN_LONG if part == "murmur3" else 0
             hi = MAX_LONG if part == "murmur3" else 2 ** 127
             for d in (-1, 1):
                 if lo <= t + d <= hi:
-                    probes.append(("token", t + d, ref.first_token_index(tokens, t + d)))
+                    tprobes.append((t + d, ref.first_token_index(tokens, t + d)))
         else:
             for tv in (t + b"\x00", t[:-1] if t else b""):
-                probes.append(("token", tv, ref.first_token_index(tokens, tv)))
+                tprobes.append((tv, ref.first_token_index(tokens, tv)))
+    tprobes = [(ring.driver_token(a), a, i) for a, i in tprobes]
     pos_classes = set()
     for kh in case.get("keys", []):
         key = bytes.fromhex(kh)
         kt = ring.key_token(key)
-        idx = ref.first_token_index(tokens, kt)
-        probes.append(("key", key, idx))
+        kprobes.append((key, key, ref.first_token_index(tokens, kt)))
         if kt in tokens:
             pos_classes.add("key:on-ring-token")
         elif kt < tokens[0]:
@@ -113,89 +142,81 @@ def interpret(case, ctx):
         else:
             pos_classes.add("key:between")
 
+    pre = ref._dc_endpoints(ring.ref_ring, ring.topology)
+    idmap = ring._by_id
     nontrivial = False
-    for name in sorted(ring.keyspaces):
+    for ksi, name in enumerate(ring.keyspaces):
         cls, opts = ring.strategy(name)
         short = cls.rsplit(".", 1)[-1]
         sub = "C26.simple" if short == "SimpleStrategy" else "C26.nts"
+        rff = _rf_features(opts)
         try:
-            want = [ref.natural_endpoints_at(ring.ref_ring, ring.topology, cls, opts, i) for i in range(n)]
+            want = [ref.natural_endpoints_at(ring.ref_ring, ring.topology, cls, opts, i, pre) for i in range(n)]
         except ref.ReferenceDisagreement as e:
             raise HarnessError("reference self-check failed: %s" % e)
+        why = _nontrivial(ring, short, opts, want)
+        if why:
+            nontrivial = True
+            ctx.label(why)
 
-        # non-trivial rule
-        if short == "SimpleStrategy":
-            rf = ref.parse_rf(opts["replication_factor"])[0]
-            for i in range(n):
-                walk = [ring.ref_ring[(i + k) % n][1] for k in range(n)]
-                first = []
-                for k, ep in enumerate(walk):
-                    if len(first) >= rf:
-                        break
-                    if ep in first:
-                        nontrivial = True       # a repeated host had to be skipped before RF was reached
-                    else:
-                        first.append(ep)
-        else:
-            for dc in set(d for d, _r in ring.topology.values()):
-                if dc not in opts:
-                    continue
-                rf = ref.parse_rf(opts[dc])[0]
-                hosts_dc = set(ep for _t, ep in ring.ref_ring if ring.topology[ep][0] == dc)
-                racks_dc = set(ring.topology[ep][1] for ep in hosts_dc)
-                if rf > len(racks_dc) and len(hosts_dc) > len(racks_dc):
-                    nontrivial = True
-                for i in range(n):
-                    if set(_dc_walk(ring, dc, rf, i)) != set(ep for ep in want[i] if ring.topology[ep][0] == dc):
-                        nontrivial = True
-                        ctx.label("nts:rack-awareness-matters")
-                        break
+        results = []
+        with ctx.driver([sub + ".get_replicas", "by-token", rff]):
+            get = md.token_map.get_replicas
+            for tok, arg, idx in tprobes:
+                results.append(("token", arg, idx, get(name, tok)))
+        # every probe key on the first two keyspaces, every third key (rotating) on the others: the key -> token -> range
+        # step does not depend on the keyspace
+        with ctx.driver([sub + ".get_replicas", "by-key", rff]):
+            get = md.get_replicas
+            for key, arg, idx in (kprobes if ksi < 2 else kprobes[ksi % 3::3]):
+                results.append(("key", arg, idx, get(name, key)))
 
+        verdicts = {}
         seen_fail = set()
-        for how, arg, idx in probes:
-            got = None
-            kfeat = [_rf_features(opts)]
-            with ctx.driver([sub + ".get_replicas", how] + kfeat):
-                if how == "token":
-                    got = md.token_map.get_replicas(name, ring.driver_token(arg))
-                else:
-                    got = md.get_replicas(name, arg)
-                got = list(got)
-            if got is None:
-                break
-            if not all(isinstance(h, Host) for h in got):
+        for how, arg, idx, got in results:
+            vk = (id(got), idx)
+            if vk in verdicts:
+                if verdicts[vk]:
+                    continue
+            if not isinstance(got, list) or not all(isinstance(h, Host) for h in got):
                 ctx.fail([sub + ".type"], "get_replicas returned %r" % (got,))
                 break
             try:
-                got_idx = [ring.index(h) for h in got]
+                got_idx = [idmap[id(h)] for h in got]
             except KeyError:
-                ctx.fail([sub + ".foreign-host"], "get_replicas returned a host that is not in the ring: %r" % (got,))
+                ctx.fail([sub + ".foreign-host"], "get_replicas returned a Host object that is not the ring's: %r" % (got,))
                 break
             exp = want[idx]
-            # which DCs are affected -> structural features
+            sgot = set(got_idx)
+            ok = len(sgot) == len(got_idx) and sgot == set(exp)
+            verdicts[vk] = ok
+            if ok:
+                continue
+            repeats = len(sgot) != len(got_idx)
             if short == "SimpleStrategy":
                 vn = "vnodes" if n > len(set(ep for _t, ep in ring.ref_ring)) else "single-token"
-                feats = [[_rf_features(opts), vn]]
+                feats = [[rff] if rff == "transient-rf" else [rff, vn]]
             else:
-                bad_dcs = sorted(set(ring.topology[e][0] for e in set(got_idx) ^ set(exp)) |
+                bad_dcs = sorted(set(ring.topology[e][0] for e in sgot ^ set(exp)) |
                                  set(ring.topology[e][0] for e in got_idx if got_idx.count(e) > 1))
                 feats = [_dc_features(ring, dc, opts) for dc in bad_dcs]
-            if len(set(got_idx)) != len(got_idx):
+            shown = arg.hex() if isinstance(arg, bytes) else arg
+            if repeats:
                 for f in feats:
                     k = tuple([sub + ".repeat"] + f)
                     if k not in seen_fail:
                         seen_fail.add(k)
-                        ctx.fail(list(k), "%s %r %s=%r (ring index %d): replicas %r repeat a host (reference %r); ring=%r topology=%r" % (
-                            short, opts, how, arg if how == "token" else arg.hex(), idx, got_idx, exp, ring.ref_ring, ring.topology))
-            if set(got_idx) != set(exp):
-                lost = "missing" if set(exp) - set(got_idx) else "extra"
+                        ctx.fail(list(k), "%s %r %s=%r (ring index %d): replica list %r repeats a host (Cassandra places %r); ring=%r topology=%r" % (
+                            short, opts, how, shown, idx, got_idx, exp, ring.ref_ring, ring.topology))
+            if sgot != set(exp):
+                lost = "missing" if set(exp) - sgot else "extra"
                 for f in feats:
-                    k = tuple([sub + ".set", lost] + f)
+                    k = tuple([sub + ".set", lost] + f + (["list-repeats-host"] if repeats else ["list-distinct"]))
                     if k not in seen_fail:
                         seen_fail.add(k)
                         ctx.fail(list(k), "%s %r %s=%r (ring index %d): driver replicas %r, Cassandra places %r; ring=%r topology=%r" % (
-                            short, opts, how, arg if how == "token" else arg.hex(), idx, sorted(set(got_idx)), sorted(exp), ring.ref_ring, ring.topology))
-        ctx.label(short, "%s:%s" % (short, _rf_features(opts)))
+                            short, opts, how, shown, idx, got_idx, sorted(exp), ring.ref_ring, ring.topology))
+        ctx.label(short, "%s:%s" % (short, rff))
     ctx.label("partitioner=" + part, "hosts=%d" % len(ring.hosts), "tokens=%d" % n, *sorted(pos_classes))
     if n > len(set(ep for _t, ep in ring.ref_ring)):
         ctx.label("vnodes")
@@ -304,24 +325,29 @@ def _keyspaces_for(h, ndc):
 
 
 def small_chunks(tier):
+    # (partitioner, hosts, max tokens per host, max tokens in the ring, max racks per dc)
     if tier == "quick":
-        dom = [("murmur3", h, 2, 2 * h, 2) for h in (1, 2, 3, 4)] + [(p, h, 2, 2 * h, 2) for p in ("random", "bytes") for h in (2, 3)]
+        dom = [("murmur3", h, 2, min(2 * h, 6), 2) for h in (1, 2, 3, 4)] + [(p, h, 2, 2 * h, 2) for p in ("random", "bytes") for h in (2, 3)]
     else:
-        dom = [("murmur3", h, 3, min(3 * h, 9), 3) for h in (1, 2, 3, 4)] + [("murmur3", 5, 2, 8, 2)] + \
-              [(p, h, 2, 2 * h, 2) for p in ("random", "bytes") for h in (2, 3, 4)]
+        dom = [("murmur3", 1, 4, 4, 3), ("murmur3", 2, 4, 8, 3), ("murmur3", 3, 4, 9, 3), ("murmur3", 4, 2, 8, 3),
+               ("murmur3", 4, 3, 7, 2), ("murmur3", 5, 2, 7, 2)] + [(p, h, 2, 2 * h, 2) for p in ("random", "bytes") for h in (2, 3, 4)]
     chunks = []
     for p, h, max_tok, max_total, max_racks in dom:
+        nseq = len(_owner_seqs(h, max_tok, max_total))
         for dcs in _growth_strings(h, 2):
-            # split the big ones further by the first few owners
-            chunks.append({"partitioner": p, "hosts": h, "max_tok": max_tok, "max_total": max_total,
-                           "max_racks": max_racks, "dcs": list(dcs)})
+            per_seq = len(_rack_assignments(dcs, max_racks))
+            m = max(1, min(nseq, (nseq * per_seq + 1499) // 1500))      # slices of about 1500 rings
+            for k in range(m):
+                chunks.append({"partitioner": p, "hosts": h, "max_tok": max_tok, "max_total": max_total,
+                               "max_racks": max_racks, "dcs": list(dcs), "slice": [k, m]})
     return chunks
 
 
 def small_cases(chunk):
     p, h = chunk["partitioner"], chunk["hosts"]
     dcs = chunk["dcs"]
-    seqs = _owner_seqs(h, chunk["max_tok"], chunk["max_total"])
+    k, m = chunk.get("slice", [0, 1])
+    seqs = _owner_seqs(h, chunk["max_tok"], chunk["max_total"])[k::m]
     racks_list = _rack_assignments(dcs, chunk["max_racks"])
     keyspaces = _keyspaces_for(h, max(dcs) + 1)
     for owners in seqs:
@@ -333,7 +359,7 @@ def small_cases(chunk):
         for racks in racks_list:
             hosts = [{"dc": "dc%d" % dcs[i], "rack": "r%d" % racks[i],
                       "tokens": [toks[pos] for pos in range(T) if owners[pos] == i]} for i in range(h)]
-            yield {"partitioner": p, "hosts": hosts, "keyspaces": keyspaces, "keys": [k.hex() for k in keys]}
+            yield {"partitioner": p, "hosts": hosts, "keyspaces": keyspaces, "keys": [k_.hex() for k_ in keys]}
 
 
 # ---------------------------------------------------------------------------------------------
@@ -388,6 +414,6 @@ def s_random(max_dcs):
 def parts(tier):
     return [
         EnumPart("small-rings", small_chunks(tier), small_cases, interpret),
-        hyp_part("random-rings", s_random(2 if tier == "quick" else 3), interpret, tier, quick=250, thorough=20000,
+        hyp_part("random-rings", s_random(2 if tier == "quick" else 3), interpret, tier, quick=250, thorough=6000,
                  quick_shards=2, thorough_shards=16),
     ]
